@@ -36,8 +36,8 @@ def ev(tr, env, t=0.0, vol=1.0, track=None):
                 raise Undefined('division by zero')
             v = a / b
         else:
-            if a == 0 and b < 0:
-                raise Undefined('0 ** negative')
+            if a == 0 and b <= 0:
+                raise Undefined('0 ** non-positive (0^0 is an indeterminate form, 0^negative a pole)')
             if a < 0 and b != int(b):
                 raise Undefined('negative base, fractional exponent')
             try:
